@@ -8,7 +8,7 @@ from ase.build import bulk, molecule, surface
 from . import cells
 
 PALETTE = [1, 6, 8, 13, 14, 22, 26, 29, 47, 55, 79, 82]
-FAMILIES = ["gas", "crystal", "defective", "two_crystals", "crystallite", "molecules", "slab", "vacancy_shell"]
+FAMILIES = ["gas", "crystal", "defective", "two_crystals", "crystallite", "molecules", "slab", "vacancy_shell", "primitive", "monolayer"]
 
 _CRYSTALS = [
     ("Cu", "fcc", 3.61), ("Al", "fcc", 4.05), ("Fe", "bcc", 2.87), ("W", "bcc", 3.16), ("Si", "diamond", 5.43),
@@ -173,8 +173,51 @@ def slab(rng, max_atoms):
     return s
 
 
+
+def primitive(rng, max_atoms):
+    """Primitive cells with 1-4 atoms: an atom bonded to its own periodic images (bulk, monoatomic chain / layer)."""
+    k = int(rng.integers(4))
+    if k == 0:
+        unit, _ = _bulk(rng, cubic=False)
+        a = unit
+    elif k == 1:
+        z = int(rng.choice([6, 13, 29, 79]))
+        d = float(rng.uniform(1.2, 3.0))
+        a = Atoms(numbers=[z], positions=[[0, 0, 0]], cell=[d, float(rng.uniform(6, 12)), float(rng.uniform(6, 12))], pbc=True)
+    elif k == 2:
+        z = int(rng.choice([6, 14, 29, 47]))
+        d = float(rng.uniform(1.4, 3.0))
+        a = Atoms(numbers=[z], positions=[[0, 0, 0]], cell=[d, d * float(rng.uniform(0.9, 1.1)), float(rng.uniform(7, 14))], pbc=True)
+    else:
+        unit, _ = _bulk(rng, cubic=False)
+        reps = [int(x) for x in rng.integers(1, 3, size=3)]
+        a = unit.repeat(reps)
+    return a
+
+
+def monolayer(rng, max_atoms):
+    from ase.build import graphene, mx2
+    k = int(rng.integers(4))
+    vac = float(rng.uniform(5, 9))
+    if k == 0:
+        a = graphene(vacuum=vac)
+    elif k == 1:
+        a = graphene(formula="BN", a=2.504, vacuum=vac)
+    elif k == 2:
+        a = mx2("MoS2", kind="2H", a=3.18, thickness=3.19, vacuum=vac)
+    else:
+        a = mx2("TiS2", kind="1T", a=3.41, thickness=2.85, vacuum=vac)
+    n = int(rng.integers(2, 6))
+    a = a.repeat((n, n, 1))
+    a.set_pbc(True)
+    if len(a) > max_atoms:
+        a = a[:max_atoms]
+    return a
+
+
 _BUILDERS = {"gas": gas, "crystal": crystal, "defective": defective, "two_crystals": two_crystals,
-             "crystallite": crystallite, "molecules": molecules, "slab": slab, "vacancy_shell": vacancy_shell}
+             "crystallite": crystallite, "molecules": molecules, "slab": slab, "vacancy_shell": vacancy_shell,
+             "primitive": primitive, "monolayer": monolayer}
 
 
 def random_structure(rng, max_atoms=300, family=None, allow_degenerate=True, allow_invalid=False,
